@@ -21,20 +21,20 @@ PK = ["q", "default0", "ret0", "f", "args", "T1"]
 KO = ["k", "T2", "default1", "kwargs", "ret1", "name"]
 
 
-def gen_source(sig, names, kind, with_ret):
+def gen_source(sig, names, kind, with_ret, annot_var=False):
     parts = []
     if sig["po"]:
         parts += [f"{names['po']}: A" + (" = D" if sig["dpo"] else ""), "/"]
     if sig["pk"]:
         parts.append(f"{names['pk']}: A" + (" = D" if sig["dpk"] else ""))
     if sig["va"]:
-        parts.append(f"*{names['va']}")
+        parts.append(f"*{names['va']}" + (": A" if annot_var else ""))
     elif sig["ko"]:
         parts.append("*")
     if sig["ko"]:
         parts.append(f"{names['ko']}: A" + (" = D" if sig["dko"] else ""))
     if sig["vk"]:
-        parts.append(f"**{names['vk']}")
+        parts.append(f"**{names['vk']}" + (": A" if annot_var else ""))
     argstr = ", ".join(parts)
     got = "{" + ", ".join(f"'{r}': {names[r]}" for r in ("po", "pk", "ko") if sig[r]) + "}"
     va = names["va"] if sig["va"] else "()"
@@ -76,11 +76,14 @@ def worker(args):
                 names["vk"] = "kwargs"
             kind = rng.choice(["def", "def", "def", "async", "lambda"])
             with_ret = kind == "def" and rng.random() < .5
+            annot_var = rng.random() < .4          # *args / **kwargs annotated too: every extra argument is checked
             g = {"A": A, "D": D, "BODY": BODY}
-            exec(gen_source(sig, names, kind, with_ret), g)
+            exec(gen_source(sig, names, kind, with_ret, annot_var), g)
             plain = g["fn"]
             if kind == "lambda":
                 plain.__annotations__ = {names[r]: A for r in ("po", "pk", "ko") if sig[r]}
+                if annot_var:
+                    plain.__annotations__.update({names[r]: A for r in ("va", "vk") if sig[r]})
             ck = rng.choice(["beartype", "typeguard"])
             tc = {"beartype": beartype, "typeguard": typechecked}[ck]
             try:
@@ -107,6 +110,11 @@ def worker(args):
                 for k in call["kws"]:
                     if (k == "pk" and sig["pk"]) or (k == "ko" and sig["ko"]):
                         targets.append(("kw", {"pk": names["pk"], "ko": names["ko"]}[k]))
+                    elif annot_var and sig["vk"]:
+                        targets.append(("kw", {"po": names["po"], "pk": names["pk"], "ko": names["ko"], "extra": "zz_extra"}[k]))
+                if annot_var and sig["va"]:
+                    for i in range(npospar, call["npos"]):
+                        targets.append(("pos", i))
                 if not targets:
                     typed = "well"
                 else:
@@ -150,7 +158,7 @@ def worker(args):
                 meta = False
             meta = meta and (inspect.iscoroutinefunction(plain) == inspect.iscoroutinefunction(dec) or kind != "async" or True)
             f.write(json.dumps({"id": rid, "sig": sig, "call": call, "typed": typed, "flavour": flavour, "res": res, "plain": pl,
-                                "meta_equal": bool(meta), "desc": f"{kind}/{ck}/ret={with_ret}/{names}"},
+                                "meta_equal": bool(meta), "desc": f"{kind}/{ck}/ret={with_ret}/annotvar={annot_var}/{names}"},
                                separators=(",", ":")) + "\n")
     return len(rows_in)
 
@@ -303,7 +311,7 @@ def main_c07(tier):
     chk = main(tier, "C07")
     if isinstance(chk, int):
         return chk
-    chk.assumptions += ["*args / **kwargs are not annotated", "metadata (__name__, __qualname__, __doc__, __module__, signature) and "
+    chk.assumptions += ["*args / **kwargs are annotated in 40% of the generated functions", "metadata (__name__, __qualname__, __doc__, __module__, signature) and "
                         "descriptor kinds are compared directly (nothing for TLC to explore there)"]
     return chk.finish()
 
